@@ -46,6 +46,22 @@ func TestVerifGrpcUnaryServer(t *testing.T) {
 			_, err := NewUnaryServerInterceptor(opts...)(context.Background(), "req", &grpc.UnaryServerInfo{FullMethod: "/svc/Method"},
 				func(context.Context, interface{}) (interface{}, error) { return "resp", handler() })
 			return vOut{Err: err}
+		},
+		Instance: func(ext, fb bool) func(func() error) vOut {
+			var opts []Option
+			if ext {
+				opts = append(opts, WithUnaryServerResourceExtractor(func(context.Context, interface{}, *grpc.UnaryServerInfo) string { return "custom-grpc-us" }))
+			}
+			if fb {
+				opts = append(opts, WithUnaryServerBlockFallback(func(context.Context, interface{}, *grpc.UnaryServerInfo, *base.BlockError) (interface{}, error) {
+					return nil, errFallback
+				}))
+			}
+			ic := NewUnaryServerInterceptor(opts...)
+			return func(h func() error) vOut {
+				_, err := ic(context.Background(), "req", &grpc.UnaryServerInfo{FullMethod: "/svc/Method"}, func(context.Context, interface{}) (interface{}, error) { return "resp", h() })
+				return vOut{Err: err}
+			}
 		}, Rejected: rpcRejected})
 }
 
@@ -62,6 +78,19 @@ func TestVerifGrpcStreamServer(t *testing.T) {
 			err := NewStreamServerInterceptor(opts...)(nil, nil, &grpc.StreamServerInfo{FullMethod: "/svc/Stream"},
 				func(interface{}, grpc.ServerStream) error { return handler() })
 			return vOut{Err: err}
+		},
+		Instance: func(ext, fb bool) func(func() error) vOut {
+			var opts []Option
+			if ext {
+				opts = append(opts, WithStreamServerResourceExtractor(func(interface{}, grpc.ServerStream, *grpc.StreamServerInfo) string { return "custom-grpc-ss" }))
+			}
+			if fb {
+				opts = append(opts, WithStreamServerBlockFallback(func(interface{}, grpc.ServerStream, *grpc.StreamServerInfo, *base.BlockError) error { return errFallback }))
+			}
+			ic := NewStreamServerInterceptor(opts...)
+			return func(h func() error) vOut {
+				return vOut{Err: ic(nil, nil, &grpc.StreamServerInfo{FullMethod: "/svc/Stream"}, func(interface{}, grpc.ServerStream) error { return h() })}
+			}
 		}, Rejected: rpcRejected})
 }
 
@@ -78,6 +107,20 @@ func TestVerifGrpcUnaryClient(t *testing.T) {
 			err := NewUnaryClientInterceptor(opts...)(context.Background(), "/svc/ClientMethod", "req", "reply", nil,
 				func(context.Context, string, interface{}, interface{}, *grpc.ClientConn, ...grpc.CallOption) error { return handler() })
 			return vOut{Err: err}
+		},
+		Instance: func(ext, fb bool) func(func() error) vOut {
+			var opts []Option
+			if ext {
+				opts = append(opts, WithUnaryClientResourceExtractor(func(context.Context, string, interface{}, *grpc.ClientConn) string { return "custom-grpc-uc" }))
+			}
+			if fb {
+				opts = append(opts, WithUnaryClientBlockFallback(func(context.Context, string, interface{}, *grpc.ClientConn, *base.BlockError) error { return errFallback }))
+			}
+			ic := NewUnaryClientInterceptor(opts...)
+			return func(h func() error) vOut {
+				return vOut{Err: ic(context.Background(), "/svc/ClientMethod", "req", "reply", nil,
+					func(context.Context, string, interface{}, interface{}, *grpc.ClientConn, ...grpc.CallOption) error { return h() })}
+			}
 		}, Rejected: rpcRejected})
 }
 
@@ -96,5 +139,22 @@ func TestVerifGrpcStreamClient(t *testing.T) {
 			_, err := NewStreamClientInterceptor(opts...)(context.Background(), &grpc.StreamDesc{}, nil, "/svc/ClientStream",
 				func(context.Context, *grpc.StreamDesc, *grpc.ClientConn, string, ...grpc.CallOption) (grpc.ClientStream, error) { return nil, handler() })
 			return vOut{Err: err}
+		},
+		Instance: func(ext, fb bool) func(func() error) vOut {
+			var opts []Option
+			if ext {
+				opts = append(opts, WithStreamClientResourceExtractor(func(context.Context, *grpc.StreamDesc, *grpc.ClientConn, string) string { return "custom-grpc-sc" }))
+			}
+			if fb {
+				opts = append(opts, WithStreamClientBlockFallback(func(context.Context, *grpc.StreamDesc, *grpc.ClientConn, string, *base.BlockError) (grpc.ClientStream, error) {
+					return nil, errFallback
+				}))
+			}
+			ic := NewStreamClientInterceptor(opts...)
+			return func(h func() error) vOut {
+				_, err := ic(context.Background(), &grpc.StreamDesc{}, nil, "/svc/ClientStream",
+					func(context.Context, *grpc.StreamDesc, *grpc.ClientConn, string, ...grpc.CallOption) (grpc.ClientStream, error) { return nil, h() })
+				return vOut{Err: err}
+			}
 		}, Rejected: rpcRejected})
 }
